@@ -366,6 +366,9 @@ pub fn run_scenario(sc: &Scenario) -> Outcome {
             stats.merge(&out.stats);
             fp.add_u64(out.fp);
         }
+        for side in [Side::Client, Side::Server] {
+            mon::reset::check_endpoint(&view, side, quiescent, &mut violations, &mut stats);
+        }
         let api = mon::api::check_with_ending(&view, Some(&sc), quiescent, t_ending);
         violations.extend(api.violations);
         stats.merge(&api.stats);
